@@ -164,14 +164,39 @@ impl World {
             }),
             _ => {
                 next_oid = cfg.max;
-                Pool::from(
-                    (0..cfg.max)
-                        .map(|id| Obj {
-                            id,
-                            log: log.clone(),
-                        })
-                        .collect::<Vec<_>>(),
-                )
+                // an iterator whose ExactSizeIterator::len() does not tell the truth (safe code can
+                // write one): the pool must size itself by the items it actually received
+                struct Lying<I> {
+                    inner: I,
+                    claim: usize,
+                }
+                impl<I: Iterator> Iterator for Lying<I> {
+                    type Item = I::Item;
+                    fn next(&mut self) -> Option<I::Item> {
+                        self.inner.next()
+                    }
+                    fn size_hint(&self) -> (usize, Option<usize>) {
+                        (self.claim, Some(self.claim))
+                    }
+                }
+                impl<I: Iterator> ExactSizeIterator for Lying<I> {
+                    fn len(&self) -> usize {
+                        self.claim
+                    }
+                }
+                let claim = match cfg.max % 3 {
+                    0 => cfg.max,
+                    1 => cfg.max + 1,
+                    _ => cfg.max - 1,
+                };
+                let log2 = log.clone();
+                Pool::from(Lying {
+                    inner: (0..cfg.max).map(move |id| Obj {
+                        id,
+                        log: log2.clone(),
+                    }),
+                    claim,
+                })
             }
         };
         World {
